@@ -21,17 +21,23 @@ def prep(chk, pid):
 
 def attribute_failures(chk, mode, lines, failures, describe):
     """a harness process died / lost lines: find one line that kills it (bisect) and report it."""
-    for which, lo, hi, rc, tail in failures:
+    import time as _t
+    t_end = _t.time() + 240          # the search for the line is bounded: a tree on which every run takes minutes is reported without it
+    for fi, (which, lo, hi, rc, tail) in enumerate(failures):
         if which == "model":
             chk.violation("model-run-failure", "modelrun failed rc=%s: %s" % (rc, tail[-300:]), dict(stage="model"), True)
             continue
         cand = lines[lo:hi]
-        while len(cand) > 1:
+        if fi >= 2 or _t.time() > t_end:
+            chk.violation("process-abort", "the process running the implementation failed (rc=%s) on a shard of %d inputs (not narrowed down: time budget): %s" % (rc, len(cand), tail[-300:].replace("\n", " | ")),
+                          dict(mode=mode, line=cand[0], rc=rc, output=tail[-2000:]), True)
+            continue
+        while len(cand) > 1 and _t.time() < t_end:
             half = cand[:len(cand) // 2]
-            rc1, o1, _ = vlib.sh(ULIMIT + [os.path.join(vlib.BUILD, "harness"), mode], inp="\n".join(half) + "\n", timeout=300)
+            rc1, o1, _ = vlib.sh(ULIMIT + [os.path.join(vlib.BUILD, "harness"), mode], inp="\n".join(half) + "\n", timeout=90)
             good = rc1 == 0 and len([l for l in o1.splitlines() if l.strip()]) == len(half)
             cand = cand[len(cand) // 2:] if good else half
-        rc1, o1, _ = vlib.sh(ULIMIT + [os.path.join(vlib.BUILD, "harness"), mode], inp=cand[0] + "\n", timeout=300)
+        rc1, o1, _ = vlib.sh(ULIMIT + [os.path.join(vlib.BUILD, "harness"), mode], inp=cand[0] + "\n", timeout=90)
         chk.violation("process-abort", "the process running the implementation aborted (rc=%s) on input %s: %s" %
                       (rc1, describe(cand[0]), o1[-400:].replace("\n", " | ")),
                       dict(mode=mode, line=cand[0], rc=rc1, output=o1[-2000:]))
@@ -209,7 +215,7 @@ def run_c02(tier, seed):
             kinds[kind] = kinds.get(kind, 0) + 1
             lines.append("%s %s %d" % (",".join(map(str, sizes)), G.hx(data), len(vals) + 2))
             meta.append((vals, data, kind, sizes))
-    impl, model, failures = vlib.run_pair("parse", [], lines)
+    impl, model, failures = vlib.run_pair("parse", [], lines, timeout=300 if tier == "quick" else 1500)
     attribute_failures(chk, "parse", lines, failures, lambda l: l[:200])
     validated = 0
     distinct = set()
@@ -313,7 +319,7 @@ def run_c02(tier, seed):
             data = b"".join(CG.request_bytes(n_, a_) for n_, a_ in reqs)
             ccases.append(dict(line=CL.mkcase([(0, "c%d" % cap), (0, "f" + CL.hx(data)), (0, "e")], default="ms(4f4b)", trace=False),
                                expect=[b"$%d\r\n" % len(a_[0]) + a_[0] + b"\r\n" for _, a_ in reqs], cuts=["every %d bytes" % cap], n=len(data)))
-    cimpl, cmodel, cfail = vlib.run_pair("conn", [], [c["line"] for c in ccases], shards=8)
+    cimpl, cmodel, cfail = vlib.run_pair("conn", [], [c["line"] for c in ccases], shards=8, timeout=240 if tier == "quick" else 900)
     attribute_failures(chk, "conn", [c["line"] for c in ccases], cfail, lambda l: l[:200])
     conn_ok = 0
     for c, a in zip(ccases, cimpl):
